@@ -50,6 +50,9 @@ template struct Rob<TMove, &HyperedgeImprover::moveJunctionAlongCommonEdge>;
 struct TUpd { typedef void (ConnRef::*type)(const unsigned int, const ConnEnd &); friend type get(TUpd); };
 template <typename Tag, typename Tag::type M> struct RobC { friend typename Tag::type get(Tag) { return M; } };
 template struct RobC<TUpd, &ConnRef::updateEndPoint>;
+// the route as written (ConnRef::displayRoute() would regenerate an EMPTY display route from m_route)
+struct TDisp { typedef PolyLine ConnRef::*type; friend type get(TDisp); };
+template struct RobC<TDisp, &ConnRef::m_display_route>;
 
 struct PendingEnds { ConnRef *conn; ConnEnd src, dst; };
 
@@ -403,7 +406,7 @@ inline void writeBack(World &w, int i) {
         for (auto &p : w.cById) {
             if (!conns.count(p.second)) continue;
             printf("hroute %d %ld", i, p.first);
-            const PolyLine &pl = p.second->displayRoute();
+            const PolyLine &pl = p.second->*get(TDisp());
             for (size_t q = 0; q < pl.size(); ++q) printf(" %s %s", vh::hx(pl.ps[q].x).c_str(), vh::hx(pl.ps[q].y).c_str());
             printf("\n");
         }
